@@ -83,6 +83,10 @@ def run(tier):
     rnd = random.Random(common.seed() * 2654435761 % 2**32 + 11)
     traces = clocks.sc_random_traces(rnd, 200 if tier == 'quick' else 1500, 60)
     rt, ntr, acc = clocks.sc_validate_traces(chk, exe, traces, work, 'rnd')
+    # the same schedules on a SystemClockLoop without reference clock (the non-reading poll is loop())
+    rt2, ntr2, acc2 = clocks.sc_validate_traces(chk, exe, traces, work, 'rnd-loop', mode='scloop')
+    ntr += ntr2
+    acc += acc2
     st += rt.distinct
     tr += rt.generated
     chk.sample({'random_schedule_prefix': traces[0][1][:8], 'phase': traces[0][0]})
